@@ -12,7 +12,7 @@ from .interp import Events, normal_cfg, language, diverging_exits
 from .lang import Roles
 from .origin import Origins, show, walk
 from .templates import templates_of
-from .util import Vars, reaches_without
+from .util import Vars, reaches_without, dominating_edge_labels
 from . import p_c01, p_c02, p_c09, witness
 
 TECHNIQUE = 'static analysis: code-generator templates recovered from format_args! constants in MIR; generated witness crate type-checked by rustc; event-language equality of instantiated templates against the language table; placeholder provenance (units) and format-string-position lint'
@@ -203,7 +203,6 @@ def rule_area(ctx, R):
     # which node emits which piece: operators (type 0/1) the comparison, hearts 2..12 the label piece, ♡ (13) the return
     ab = ctx.fb.bodies.get(COMPILE + "area")
     if R.anchor(ab is not None, "area_fn", "compile::area"):
-        from .util import dominating_edge_labels
         acfg = normal_cfg(ab)
         aroles = Roles(ab, ctx.fb, param_roles={1: "INDENT", 2: "AREA", 3: "AREACOUNT"})
         aev = Events(ab, ctx.fb, roles=aroles)
@@ -578,6 +577,84 @@ def rule_units(ctx, R):
             reads = reads or {ub}
             stale = [o for o in opens if any(reaches_without(cfg, cfg.succ[o], lb, cut_blocks=set(adds) | set(heads_)) for lb in reads)]
             R.check(not stale, "units:fresh:%s" % what.replace(" ", "_"), "the block index recorded by the %s is read after the command was put into its block and before the next block is opened" % what, b.blocks[ub]["term"]["span"]["at"] if b.blocks[ub]["term"].get("span") else None)
+    # how commands are grouped into blocks, as a decision table per command: an area-carrying command is the last of
+    # its block (it starts a new block unless the open one is empty, and a fresh empty block is opened after it); any
+    # other command joins the open block
+    from .paths import acyclic_paths, PathOriginsOv
+    LASTEMPTY = "BR[Vec::is_empty(UNWRAP([T]::last(BLOCKS)))]"
+
+    def grouping_rows(head_, blocks_):
+        rows = set()
+        latches = [x for x in blocks_ if head_ in cfg.succ[x]]
+        for p_ in acyclic_paths(cfg, head_, latches, 6000):
+            if any(x not in blocks_ for x in p_):
+                continue
+            org_ = PathOriginsOv(b, fb, p_, overrides={BL: ("role", "BLOCKS")})
+            r_ = Roles(b, fb, param_roles={1: "STATE", 2: "CODE", 3: "LEVEL"}, org=org_)
+            e_ = Events(b, fb, roles=r_)
+            g_, ev_ = [], []
+            for i_, bi_ in enumerate(p_):
+                t_ = b.blocks[bi_]["term"]
+                if t_["k"] == "call" and callee_name(t_["f"], fb) in ("std::vec::Vec::push", "std::vec::Vec::pop"):
+                    tgt_ = r_.of_operand(t_["args"][0], bi_)
+                    if callee_name(t_["f"], fb).endswith("pop") and tgt_ == "BLOCKS":
+                        ev_.append("POP")
+                    elif tgt_ == "BLOCKS":
+                        a_ = r_.of_operand(t_["args"][1], bi_)
+                        ev_.append("OPEN" if a_ in ("VEC", "Vec::new()") else "NEWBLOCK(c)")
+                    elif tgt_ == "UNWRAP([T]::last_mut(BLOCKS))":
+                        ev_.append("APPEND(c)")
+                if i_ + 1 < len(p_) and t_["k"] == "switch":
+                    lab_ = e_.generic_edge(bi_, t_, p_[i_ + 1]) or ""
+                    if lab_.startswith(LASTEMPTY):
+                        g_.append("EMPTY=" + lab_[-1])
+                    elif lab_.startswith("SW[DISCR(") and ("get_area" in lab_ or lab_.startswith("SW[DISCR(AREA")):
+                        g_.append("AREA=" + ("Val" if lab_.endswith("=0") else "Nil"))
+            rows.add((tuple(sorted(set(g_))), tuple(ev_)))
+        return rows
+
+    want_g = {(("AREA=Val", "EMPTY=0"), ("NEWBLOCK(c)", "OPEN")), (("AREA=Val", "EMPTY=1"), ("APPEND(c)", "OPEN")), (("AREA=Nil",), ("APPEND(c)",))}
+    n_group = 0
+    for h_, bl_ in sorted(loops_.items()):
+        has_append = any(b.blocks[x]["term"]["k"] == "call" and callee_name(b.blocks[x]["term"]["f"], fb) == "std::vec::Vec::push" and roles.of_operand(b.blocks[x]["term"]["args"][0], x) == "UNWRAP([T]::last_mut(BLOCKS))" for x in bl_)
+        inner_heads = [h2 for h2, bl2 in loops_.items() if h2 != h_ and h2 in bl_ and any(b.blocks[x]["term"]["k"] == "call" and callee_name(b.blocks[x]["term"]["f"], fb) == "std::vec::Vec::push" and roles.of_operand(b.blocks[x]["term"]["args"][0], x) == "UNWRAP([T]::last_mut(BLOCKS))" for x in bl2)]
+        if not has_append or inner_heads:
+            continue
+        n_group += 1
+        try:
+            got_g = grouping_rows(h_, bl_)
+        except RuntimeError as e_:
+            got_g = {("too many paths", str(e_))}
+        R.check(got_g == want_g, "units:grouping:%d" % n_group, "grouping into blocks: an area-carrying command closes its block (new block unless the open one is empty, then a fresh empty block); other commands join the open block", b.blocks[h_]["term"]["span"]["at"], {"unexpected": sorted(map(str, got_g - want_g)), "missing": sorted(map(str, want_g - got_g))})
+    # between and after the two grouping loops the open block is normalised: an empty block is opened after the
+    # pre-executed prefix unless one is open already; an empty block left at the very end is dropped
+    norm_rows = set()
+    for bi_, t_ in b.calls():
+        if b.blocks[bi_]["cleanup"] or any(bi_ in bl_ for bl_ in loops_.values()):
+            continue
+        n_ = callee_name(t_["f"], fb)
+        if n_ in ("std::vec::Vec::push", "std::vec::Vec::pop") and roles.of_operand(t_["args"][0], bi_) == "BLOCKS":
+            what_ = "POP" if n_.endswith("pop") else ("OPEN" if roles.of_operand(t_["args"][1], bi_) in ("VEC", "Vec::new()") else "OTHER")
+            labs_ = sorted(l_[len(LASTEMPTY):] for l_ in dominating_edge_labels(cfg, b, Events(b, fb, roles=roles), bi_) if l_.startswith(LASTEMPTY))
+            norm_rows.add((what_, tuple(labs_[-1:])))
+    R.check(norm_rows == {("OPEN", ("=0",)), ("POP", ("=1",))}, "units:grouping:normalise", "outside the grouping loops an empty block is opened only when the open block is not empty, and a block is dropped only when it is empty: %s" % sorted(norm_rows), b.span)
+    R.floor("grouping_loops", n_group, 2, "loops that group commands into blocks (pre-executed prefix, residual program)", slack=1.0)
+    # the pre-state is serialised exactly for level >= 2 (where a pre-executed prefix exists)
+    evl = Events(b, fb, roles=roles)
+    for pat, key in (("stack.data[", "restore"), ("    cur = ", "cur"), ("    last = ", "last"), ("point.insert(", "point"), ("    state = ", "start")):
+        for t in find(pat):
+            labs = sorted(l for l in dominating_edge_labels(cfg, b, evl, t.block) if "LEVEL" in l)
+            R.check("LT[LEVEL,K2]=0" in labs and not any(l.startswith("LT[LEVEL,K") and l != "LT[LEVEL,K2]=0" for l in labs), "units:level2:%s" % key, "the %s line of the pre-state is emitted exactly for level >= 2: %s" % (key, labs), t.where)
+    # the label cursor starts at the first label and advances by one
+    curs = {}
+    for l_, ds_ in vars_.defs.items():
+        if b.lty(l_) == "usize" and l_ in b.local_names():
+            vals_ = [roles.of_origin(org.of_rvalue(d_[3]["r"], d_[1], d_[2])) for d_ in ds_ if d_[0] == "assign"]
+            if any(v_.endswith(" Add K1)") and "LOOPVAR" in v_ for v_ in vals_) and any(rb_ in [d_[1] for d_ in ds_] for rb_ in rew_blocks + [x for rb in rew_blocks for x in cfg.succ[rb]]):
+                curs[l_] = vals_
+    idx_inits = [v_ for vals_ in curs.values() for v_ in vals_ if not v_.endswith(" Add K1)")]
+    if rew_blocks:
+        R.check(bool(curs) and idx_inits == ["K0"] * len(idx_inits) and len(idx_inits) >= 1, "units:point:cursor", "the cursor of the label rewrite starts at the first label (0) and advances by one per rewritten label: %s" % list(curs.values()), b.span)
     # the restored selection
     for t in find("cur = "):
         r = roles.of_origin(t.args[0])
